@@ -75,3 +75,56 @@ def local_tables_report():
     r.vacuity = []
     r.seconds = time.time() - t0
     return r
+
+
+def fixed_point_report():
+    """C17 "agree on every shared sub-region": a LEMMA over the update equations verified above (pv/vc/lemmas.py:
+    hps_fixed_point_consistency, machine-checked by z3 on every run with a vacuity guard) - at a stationary point of the convex
+    message passing, the parent's belief summed down to a child region and the child's belief differ by one additive constant, which
+    their common normalisation removes.  The lemma needs all counting numbers to be 1 in the convex case (then the upward weight is
+    1 / (1 + number of parents)): decided on build_graph's text.  Reaching a stationary point ("run to convergence") is not within
+    deductive reach; the bounded tier measures it."""
+    import ast, time
+    from .. import frontend
+    from ..deductive import FunctionReport
+    from ..vc.solver import Obligation
+    from ..vc import lemmas
+    import z3
+    rel = REL
+    r = FunctionReport(rel, 'RegionGraph.hazan_peng_shashua [stationary messages give consistent beliefs]')
+    t0 = time.time()
+    v, sec = lemmas.hps_fixed_point_consistency()
+    o = Obligation('pv/vc/lemmas.py::hps-fixed-point-consistency', [], None, function='%s::RegionGraph.hazan_peng_shashua' % rel, kind='lemma')
+    o.verdict = v if v in ('discharged', 'refuted') else 'unknown'
+    o.backend, o.seconds, o.reason = 'z3-%s (linear real arithmetic over the monomials P*U)' % z3.get_version_string(), sec, ('' if v == 'discharged' else v)
+    o.meta = {'base': o.name}
+    r.obligations.append(o)
+    v3, sec3 = lemmas.hps_belief_is_stationary()
+    o3 = Obligation('pv/vc/lemmas.py::hps-belief-is-stationary', [], None, function='%s::RegionGraph.hazan_peng_shashua' % rel, kind='lemma')
+    o3.verdict = v3 if v3 in ('discharged', 'refuted') else 'unknown'
+    o3.backend, o3.seconds, o3.reason = 'z3-%s (linear real arithmetic)' % z3.get_version_string(), sec3, ('' if v3 == 'discharged' else v3)
+    o3.meta = {'base': o3.name}
+    r.obligations.append(o3)
+    try:
+        fn, _, sha = frontend.get_function(rel, 'RegionGraph.build_graph')
+        r.sha = sha
+        ok = False
+        for n in ast.walk(fn):
+            if isinstance(n, ast.If) and ast.unparse(n.test).replace(' ', '') == 'self.convex':
+                for s_ in n.body:
+                    if isinstance(s_, ast.Assign) and ast.unparse(s_.targets[0]) == 'self.counting_numbers' and isinstance(s_.value, ast.DictComp) \
+                            and isinstance(s_.value.value, ast.Constant) and float(s_.value.value.value) == 1.0 and not s_.value.generators[0].ifs \
+                            and isinstance(s_.value.key, ast.Name) and isinstance(s_.value.generators[0].target, ast.Name) \
+                            and s_.value.key.id == s_.value.generators[0].target.id and ast.unparse(s_.value.generators[0].iter) in ('regions', 'self.regions'):
+                        ok = True
+        o2 = Obligation('%s::RegionGraph.build_graph/convex-counting-numbers-are-all-one' % rel, [], None, function='%s::RegionGraph.build_graph' % rel, kind='wiring')
+        o2.verdict = 'discharged' if ok else 'unknown'
+        o2.backend, o2.seconds = 'syntactic (AST match)', 0.0
+        o2.reason = '' if ok else 'no `if self.convex: self.counting_numbers = {r: 1.0 for r in regions}` found: the lemma\'s weight 1/(1+P) is not established'
+        o2.meta = {'base': o2.name}
+        r.obligations.append(o2)
+    except frontend.MissingAnchor as e:
+        r.undecided = 'anchor missing: %s' % e
+    r.vacuity = []
+    r.seconds = time.time() - t0
+    return r
